@@ -165,9 +165,31 @@ def _native(testfile, testfn, tag):
     return run
 
 
+def _native_shard(model, fnd, prop):
+    """shard writers: write fault during consolidation, and a real crash (SIGKILL injected by strace on entry to the rename) while
+    a shard that already exists under its final name is written out again"""
+    env = base_env()
+    env["CARGO_TARGET_DIR"] = os.path.join(BUILD, "replay_target")
+    tests = ["c19_write_faults", "c19_crash_before_rename"]
+    cmd = ["cargo", "test", "--offline", "--no-fail-fast"] + [x for t in tests for x in ("--test", t)]
+    rc, out = sh(cmd, cwd=os.path.join(VERIF, "replay"), env=env, timeout=2400, log=os.path.join(LOGS, "replay_c19_shard.log"))
+    path = os.path.join(VERIF, "replay", "tests", tests[0] + ".rs")
+    if "test result: FAILED" in out:
+        if re.search(r"rewriting_an_existing_shard_survives_a_crash_before_the_rename \.\.\. FAILED", out):
+            path = os.path.join(VERIF, "replay", "tests", tests[1] + ".rs")
+        m = re.search(r"C19 violated: [^\n]*", out)
+        return True, path, m.group(0)[:240] if m else "native replay fails"
+    if len(re.findall(r"test result: ok\. [1-9]\d* passed", out)) == len(tests):
+        note = "native replays pass"
+        if "crash injection unavailable" in out:
+            note += " (crash injection unavailable: the rename crash point was not exercised)"
+        return False, path, note
+    return None, path, "native replay inconclusive (rc=%s)" % rc
+
+
 SMT = [
     Q("c19_shard_writers", "shard flush / merge / consolidation event order", "mdb_shard", build_shard, bounds="all CFG paths", solvers=("z3", "cvc5-bv"),
-      replay=_native("c19_write_faults", "consolidation_write_fault_loses_no_records", "C19"),
+      replay=_native_shard,
       functions=["mdb_shard::shard_in_memory::MDBInMemoryShard::{write_to_directory, write_to_temp_shard_file}", "mdb_shard::shard_file_handle::MDBShardFile::write_out_from_reader", "mdb_shard::session_directory::consolidate_shards_in_directory"]),
     Q("c19_safe_file_creator", "temp-file + rename discipline of SafeFileCreator", "file_utils", build_sfc, bounds="all CFG paths", solvers=("z3", "cvc5-bv"),
       replay=_native("c19_write_faults", "safe_file_creator_never_exposes_a_partial_file", "C19"),
